@@ -40,14 +40,14 @@ def run(ctx):
     all26 = list(range(1, 27))
     # the sub-lattice always contains a pole, an antimeridian point and an equator point
     must = {5, 22}      # (-1,0,0) and (1,0,0) in the sorted N=1 lattice? chosen by index; harmless if different
-    sub = set(rnd.sample(all26, 7 if quick else 14)) | must
+    sub = set(rnd.sample(all26, 11 if quick else 20)) | must
     consts = {
         "N": 1, "SubIdx": sub,
         "Projs": {q("plate"), q("mercator")},
-        "Scales": {0, 1} if quick else {0, 1, 2, 3},
-        "TolExps": {0, 2, 5} if quick else {0, 1, 2, 3, 5, 7},
+        "Scales": {0, 1, 3} if quick else {0, 1, 2, 3},
+        "TolExps": {0, 2, 4, 6} if quick else {0, 1, 2, 3, 5, 7},
         "SmallTolExps": {9, 13} if quick else {8, 9, 11, 13, 15},
-        "CellLevels": {14, 24} if quick else {10, 14, 18, 22, 26, 29},
+        "CellLevels": {12, 20, 28} if quick else {10, 14, 18, 22, 26, 29},
         "Families": {q(f) for f in ("straight", "zigzag", "backtrack", "dups", "closed", "long", "random")},
         "Lengths": {1, 2, 3, 10, 60} if quick else {1, 2, 3, 5, 10, 60, 400},
         "SubTolExps": {1, 4, 9, 99} if quick else {0, 1, 2, 4, 6, 9, 12, 99},
@@ -60,11 +60,11 @@ def run(ctx):
     tess = [c for c in cases if c["op"] == "c20.tess"]
     other = [c for c in cases if c["op"] != "c20.tess"]
     if quick:
-        tess = tess[:500]
+        tess = tess[:3600]
     for c in tess + other:
         c["seed"] = rnd.randrange(1 << 30)
         if c["op"] == "c20.sub":
-            c["reps"] = 3 if quick else 12
+            c["reps"] = 8 if quick else 60
     ctx.log("configurations: %d tessellation, %d other" % (len(tess), len(other)))
     cands = tr.run(tess + other, "c20")
     ctx.counters["trace_events_validated_by_tlc"] = tr.events
